@@ -87,7 +87,7 @@ def audit_sources():
     return bad
 
 
-def build_coq(prop, log):
+def build_coq(prop, log, tier="quick"):
     """returns (ok, obligations, discharged, assumptions, failing_theorems, output)"""
     with Lock("coq"):
         rc, out = sh([sys.executable, os.path.join(ROOT, "tools", "translate.py")], cwd=ROOT)
@@ -134,6 +134,25 @@ def build_coq(prop, log):
     if bad:
         failing += ["forbidden command: " + b for b in bad]
         discharged = 0
+    if tier == "thorough" and not failing:
+        # independent re-check of the compiled closure of this property's theorems, with the axioms it relies on
+        with Lock("coq"):
+            rc, cout = sh("timeout 3000 coqchk -o -silent -Q . Flussab Flussab.Props.%s 2>&1" % prop, cwd=COQ, timeout=3100)
+        log.append(cout)
+        m = re.search(r"\* Axioms:(.*?)\n\s*\n\* ", cout, flags=re.S)
+        axs = (m.group(1).strip() if m else "?")
+        clean = all(k in cout for k in ("type-in-type: <none>", "unsafe (co)fixpoints: <none>", "positivity is assumed: <none>"))
+        if rc != 0 or not m or not clean:
+            failing.append("coqchk failed on Props/%s (or reports type-in-type / unsafe fixpoints / assumed positivity)" % prop)
+            discharged = 0
+        elif axs != "<none>":
+            names = [a.strip() for a in axs.split("\n") if a.strip()]
+            notallowed = [a for a in names if a not in AXIOM_ALLOW and a.split(".")[-1] not in AXIOM_ALLOW]
+            assumptions += ["coqchk: closure of Props/%s relies on %s" % (prop, a) for a in names]
+            if notallowed:
+                failing.append("coqchk: non-allowlisted axioms " + ",".join(notallowed))
+        else:
+            assumptions += ["coqchk -o on Flussab.Props.%s: Axioms: <none>; no type-in-type, no unsafe fixpoints, positivity never assumed" % prop]
     return (not failing), len(theorems), discharged, assumptions, failing, out
 
 
@@ -275,7 +294,7 @@ def main():
     broken = []       # names of theorems / streams that no longer check
 
     # 1-2. proofs
-    ok, obligations, discharged, assumptions, failing, out = build_coq(prop, log)
+    ok, obligations, discharged, assumptions, failing, out = build_coq(prop, log, args.tier)
     if not ok:
         broken += failing
     model_ok = ok or os.path.exists(os.path.join(COQ, "extracted", "model.ml"))
@@ -434,7 +453,7 @@ def write_evidence(prop, cfg, args, t0, obligations, discharged, assumptions, st
             "obligations": obligations,
             "discharged": discharged,
             "checker_cmd": "cd /verif/coq && make -j16 Props/%s.vo && coqc -Q . Flussab Props/%s.v  (Print Assumptions parsed; "
-                           "forbidden-command grep over coq/**/*.v)" % (prop, prop),
+                           "forbidden-command grep over coq/**/*.v); thorough tier additionally: coqchk -o -silent -Q . Flussab Flussab.Props.%s" % (prop, prop, prop),
             "trusted_base": PROPS.TRUSTED_BASE + cfg.get("trusted_extra", []),
             "theorems": cfg.get("theorems_note", ""),
             "evaluations": total_eval,
@@ -448,7 +467,8 @@ def write_evidence(prop, cfg, args, t0, obligations, discharged, assumptions, st
             "extraction_directives": ["Require Extraction", "Require Import ExtrOcamlBasic",
                                       "(no Extract Constant / Extract Inductive of our own)"],
         },
-        "assumptions": (assumptions or ["Print Assumptions: Closed under the global context for every theorem"]) + cfg.get("assumes", []),
+        "assumptions": ["Print Assumptions: Closed under the global context for every theorem"] * (not [a for a in assumptions if not a.startswith("coqchk")])
+                       + assumptions + cfg.get("assumes", []),
         "wall_s": round(time.time() - t0, 2),
         "violations": nviol,
     }
